@@ -210,10 +210,24 @@ Proof. exact ProofsFile.setExt_own_ext. Qed.
 Print Assumptions filename_setExt_own_ext.
 
 Theorem filename_dropExt_addExt : forall f,
-  normal f -> In DOT (fn_base f) -> fn_name f <> [] ->
+  normal f -> In DOT (fn_base f) -> fn_name f <> [] \/ fn_path f = [] ->
   fn_addExt (fn_dropExt f) (DOT :: fn_ext f) = f.
 Proof. exact ProofsFile.dropExt_addExt. Qed.
 Print Assumptions filename_dropExt_addExt.
+
+(* The side condition above is forced: OPEN known finding
+   C18-dropExt-hidden-file-under-directory-drops-separator.  For a hidden file directly under a
+   directory ("a/.x": name() empty, path() non-empty) dropExt() = FileName("a/") = "a" loses the
+   separator, so dropExt().addExt(".x") = "a.x" is not the file, and setExt(e) differs from
+   dropExt().addExt(e).  The check reports exactly this class under that signature. *)
+Theorem dropExt_addExt_hidden_refuted :
+  exists f, normal f /\ In DOT (fn_base f) /\ fn_name f = [] /\ fn_path f <> [] /\
+            fn_dropExt f <> fn_path f ++ fn_name f /\
+            fn_addExt (fn_dropExt f) (DOT :: fn_ext f) <> f /\
+            fn_setExt f (DOT :: fn_ext f) = f /\
+            fn_setExt f [46; 121] <> fn_addExt (fn_dropExt f) [46; 121].
+Proof. exact ProofsFile.dropExt_addExt_hidden_refuted. Qed.
+Print Assumptions dropExt_addExt_hidden_refuted.
 
 Theorem filename_no_ext : forall f,
   normal f -> ~ In DOT (fn_base f) -> fn_dropExt f = f /\ fn_setExt f [] = f /\ fn_addExt f [] = f.
